@@ -550,6 +550,68 @@ UNDECIDABLE_REFACTORS = {
     "R17_11": ("C17",),                # directory listing before the prompts
     "R17_12": ("C17",),                # prompt decided once per export call
     "R18_11": ("C18",),                # set: keys located by an index list
+    # wave 9 (behaviour-preserving rewrites in five styles). The checks decline on
+    # these; first reason as reported by the check:
+    "R02_15": ("C02", "C12"),
+    #     C02.6 at evo/core/metrics.py:259 (evo.core.metrics.RPE.process_data): RPE[rotation_angle_rad]: reducer idiom n
+    "R02_17": ("C01", "C02", "C12"),
+    #     C02.6 at evo/core/metrics.py:281 (evo.core.metrics.RPE.process_data): RPE[full_transformation]: error array is
+    "R03_13": ("C03",),
+    #     C03.2 at evo/core/geometry.py:79: the rank test is a loop over the singular values that raises from inside (lo
+    "R03_15": ("C03", "C04"),
+    #     C03.5 at evo/core/geometry.py:35 (evo.core.geometry.umeyama_alignment): covariance construction not recognised
+    "R04_15": ("C03", "C04"),
+    #     C03.6 at evo/core/geometry.py:36 (evo.core.geometry.umeyama_alignment): [with_scale=True] equivariance typing:
+    "R05_15": ("C01", "C02", "C05", "C15"),
+    #     analysis stopped: append of matching indices not found (unknown idiom)
+    "R05_16": ("C01", "C02", "C05", "C15"),
+    #     analysis stopped: [snd_longer=True] expected two reduce_to_ids calls
+    "R06_15": ("C06", "C13", "C15"),
+    #     C06.5 at evo/tools/pandas_bridge.py:45 (evo.tools.pandas_bridge.trajectory_to_df): trajectory_to_df: column co
+    "R07_13": ("C01", "C02", "C06", "C07"),
+    #     C07.5 at evo/tools/file_interface.py:196 (evo.tools.file_interface.read_euroc_csv_trajectory): form not recogn
+    "R07_15": ("C01", "C02", "C06", "C07", "C08"),
+    #     C07.1 at evo/tools/file_interface.py:97 (evo.tools.file_interface.read_tum_trajectory_file): read_tum_trajecto
+    "R09_15": ("C09", "C10"),
+    #     C09.1 at evo/core/lie_algebra.py:56 (evo.core.lie_algebra.hat): hat/vee are not literal signed index tables: n
+    "R10_14": ("C10",),
+    #     C10.8 at evo/core/filters.py:182: angle/all-pairs search: start index elem<1>(range(max((len(poses) - 1), 0)))
+    "R10_15": ("C10", "C11"),
+    #     C10.2 at evo/core/filters.py:41 (evo.core.filters.filter_pairs_by_index): frames/all-pairs: the pairs are not 
+    "R10_17": ("C10",),
+    #     C10.1 at evo/core/filters.py:95 (evo.core.filters.filter_pairs_by_path): form not recognised, no evidence of a
+    "R11_14": ("C11",),
+    #     _splits: evo.core.trajectory.PoseTrajectory3D.split_distance_gaps: parts comprehension not found (unknown idio
+    "R12_14": ("C12",),
+    #     _companions: evo.main_ape.ape: companion arrays ('seconds_from_start', 'timestamps', 'distances_from_start', '
+    "R13_13": ("C13",),
+    #     C13.3 at evo/core/result.py:91 (evo.core.result.merge_results): refusal of differing `np_arrays` key sets: the
+    "R13_15": ("C13",),
+    #     C13.6 at evo/tools/pandas_bridge.py:138 (evo.tools.pandas_bridge.load_results_as_dataframe): per-file frames a
+    "R13_17": ("C13",),
+    #     C13.4 at evo/core/result.py:97 (evo.core.result.merge_results): statistics: value under a key is (functools.re
+    "R14_13": ("C14",),
+    #     C14.2 at evo/core/transformations.py: vendored `euler_from_matrix` was edited: the summary this rule relies on
+    "R14_15": ("C01", "C02", "C05", "C10", "C12", "C14"),
+    #     C14.1 at evo/core/trajectory.py:204 (evo.core.trajectory.PosePath3D.project): Plane.XY: the axis of the rebuil
+    "R14_17": ("C14",),
+    #     C14.2 at evo/core/transformations.py: vendored `euler_from_matrix` was edited: the summary this rule relies on
+    "R15_15": ("C08", "C11", "C15"),
+    #     C08.5 at evo/core/trajectory.py:165 (evo.core.trajectory.PosePath3D.transform): transform[propagate]: accumula
+    "R15_17": ("C15",),
+    #     C15.4 at evo/main_traj.py:188 (evo.main_traj.run): form not recognised, no evidence of a deviation: reference 
+    "R16_14": ("C11",),
+    #     _splits: evo.core.trajectory.PoseTrajectory3D.split_time_gaps: parts comprehension not found (unknown idiom)
+    "R16_15": ("C06", "C07"),
+    #     C06.5 at evo/tools/file_interface.py:123 (evo.tools.file_interface.write_tum_trajectory_file): TUM writer layo
+    "R17_15": ("C17",),
+    #     rule C17.8 matched 1 instance(s), hand-confirmed floor is 2
+    "R18_15": ("C18",),
+    #     C18.2 at evo/main_config.py:84 (evo.main_config.is_number): is_number: neither a float() conversion attempt no
+    "R19_15": ("C18",),
+    #     C18.3 at evo/tools/settings.py:113 (evo.tools.settings.reset): form not recognised, no evidence of a deviation
+    "R20_15": ("C20",),
+    #     C20.3 at evo/tools/plot.py:442: xy: segment entry (vertex, axis) (0, 0) of the construction is not understood:
     "R16_10": ("C13",),  # merge accumulation moved into helpers that iterate
     #                      [r.stats for r in results][1:]: a list built by a
     #                      map and iterated again is not read through to its
